@@ -43,6 +43,34 @@ func lockDiscipline() {
 			panic(err)
 		}
 		for _, d := range f.Decls {
+			if gd, ok := d.(*ast.GenDecl); ok && gd.Tok != token.IMPORT {
+				// outside function declarations (initialisers of package-level variables, function literals in
+				// them, type and constant declarations) the store and its mutex must not be mentioned at all:
+				// such code runs whenever somebody calls it (a metrics callback, say), not under the lock
+				for _, sp := range gd.Specs {
+					var exprs []ast.Node
+					switch x := sp.(type) {
+					case *ast.ValueSpec:
+						if x.Type != nil {
+							exprs = append(exprs, x.Type)
+						}
+						for _, v := range x.Values {
+							exprs = append(exprs, v)
+						}
+					case *ast.TypeSpec:
+						exprs = append(exprs, x.Type)
+					}
+					for _, e := range exprs {
+						ast.Inspect(e, func(m ast.Node) bool {
+							if id, ok := m.(*ast.Ident); ok && (shared[id.Name] || id.Name == "tssMu") {
+								viol = append(viol, n+fmt.Sprintf(": `%s` is mentioned outside any function declaration (%s): code there does not run under tssMu",
+									id.Name, fset.Position(id.Pos()).String()[len(dir)+1:]))
+							}
+							return true
+						})
+					}
+				}
+			}
 			if gd, ok := d.(*ast.GenDecl); ok && gd.Tok == token.VAR {
 				for _, sp := range gd.Specs {
 					vs, ok := sp.(*ast.ValueSpec)
